@@ -10,7 +10,9 @@ symbolic: one solver call covers every interleaving at the granularity of shared
 fly: a field declared protected that is touched without its lock loses its protection for every thread (and the engine
 re-runs), so a dropped or misplaced `with lock:` turns into additional yield points instead of being trusted."""
 import itertools
+import os
 import threading
+import time
 import z3
 from .calls import Full
 from .values import Obj, Opaque, SBytes, SDict, SList, Guarded, Undefined, TimerRec, Unsupported
@@ -402,6 +404,10 @@ class Tracer(Full):
     def yield_point(self, pc, kind, lock):
         if self.cur_thread is None:
             return
+        if getattr(self, "deadline", None) is not None and time.time() > self.deadline:
+            # a change that removes a lock can multiply the yield points (and the size of the block summaries) beyond what is
+            # decidable in reasonable time: the VC is then INCONCLUSIVE, not silently slow
+            raise Unsupported(f"evaluation budget exceeded after {len(self.blocks)} atomic blocks (VERIF_EVAL_BUDGET_S)")
         carried = 0
         if self.blocks and self.blocks[-1].thread == self.cur_thread and self.blocks[-1].out is None:
             last = self.blocks[-1]
@@ -474,8 +480,10 @@ class Ilv:
         self.und_names = set()
 
     def run(self):
+        deadline = time.time() + float(os.environ.get("VERIF_EVAL_BUDGET_S", "150"))
         for _ in range(12):
             E = Tracer("int", 256, "real", self.unroll)
+            E.deadline = deadline
             E.undisciplined = set()
             E.und_names = self.und_names
             E.owner, E.all_locks, E.thread_ids = {}, [], {}
